@@ -424,6 +424,7 @@ VDRIVE_OP(witness)
 // pair), all 8 selections are run on each; only pairs on which the selections do not all return the same verdict
 // (or one throws) are returned, as complete "incl" events that TLC then judges with InclFails.
 #include <random>
+#include <functional>
 namespace {
 json randAut(std::mt19937& rng, const std::vector<std::pair<std::string, size_t>>& alpha, size_t nq, size_t nrules, size_t base)
 {
@@ -571,6 +572,167 @@ VDRIVE_OP(c02agree)
 	json res;
 	res["count"] = count;
 	res["nonempty_isect"] = nonEmptyIsect;
+	res["suspicious"] = suspicious;
+	return res;
+}
+
+// ---------------------------------------------------------------- oracle-free volume arm for single-automaton operations
+// {"op":"lawsagree","which":"trim"|"reduce"|"compl"|"witness"|"sim","seed":S,"count":N}
+// Seeded random automata with 3-9 states are generated here; the operation is run and CONSEQUENCES of its contract are
+// checked with the library's own inclusion / emptiness (cross-checked elsewhere).  Only suspicious inputs come back, as
+// ordinary events of the operation (inputs + results), which TLC then judges with the real contract.
+namespace {
+bool leq(const TA& x, const TA& y) { return TA::CheckInclusion(x, y); }
+bool eqv(const TA& x, const TA& y) { return leq(x, y) && leq(y, x); }
+}
+
+VDRIVE_OP(lawsagree)
+{
+	std::mt19937 rng(c.at("seed").get<unsigned>());
+	size_t count = c.at("count").get<size_t>();
+	std::string which = c.at("which").get<std::string>();
+	typedef std::vector<std::pair<std::string, size_t>> AlphaV;
+	const AlphaV alphas[4] = {
+		{{"a", 0}, {"b", 0}, {"f", 2}},
+		{{"a", 0}, {"g", 1}, {"f", 2}},
+		{{"a", 0}, {"b", 1}},
+		{{"a", 0}, {"b", 0}, {"g", 1}, {"f", 2}}};
+	json suspicious = json::array();
+	size_t nonEmpty = 0, processed = 0;
+	for (size_t i = 0; i < count; ++i)
+	{
+		const AlphaV* al = &alphas[rng() % 4];
+		size_t nq = 2 + rng() % 7;
+		bool dense = (which == "sim" || which == "reduce") && (rng() % 2);
+		json ja = randAut(rng, *al, nq, nq + rng() % (2 * nq), (rng() % 3 == 0 && !dense) ? 5 : 0);
+		SetStage(("lawsagree " + which + " " + std::to_string(i)).c_str());
+		Alpha alpha;
+		json syms = json::array();
+		for (auto& s : *al) { syms.push_back(json::array({s.first, s.second})); }
+		alpha.RegisterAll(syms);
+		TA a = MakeTA(ja, alpha);
+		if (!a.IsLangEmpty()) { ++nonEmpty; }
+		json ev;
+		ev["A"] = ja; ev["syms"] = syms; ev["outcome"] = "ok"; ev["src"] = "lawsagree";
+		ev["id"] = json::array({"lawsagree", which, c.at("seed"), i});
+		json r;
+		bool bad = false;
+		if (which == "trim")
+		{
+			AutBase::StateToStateMap m1, m2;
+			TA u = a.RemoveUnreachableStates(&m1);
+			TA s = a.RemoveUselessStates(&m2);
+			bool e = a.IsLangEmpty();
+			TA s2 = s.RemoveUselessStates();
+			bad = !eqv(u, a) || !eqv(s, a) || (e != s.GetFinalStates().empty()) || (ReadTA(s2, alpha)["rules"].size() != ReadTA(s, alpha)["rules"].size());
+			ev["op"] = "trim";
+			r["unreach"] = ReadTA(u, alpha); r["unreach_map"] = StateMapToJson(m1);
+			r["useless"] = ReadTA(s, alpha); r["useless_map"] = StateMapToJson(m2);
+			r["empty"] = e;
+		}
+		else if (which == "reduce")
+		{
+			TA x = a.Reduce();
+			bad = !eqv(x, a) || x.GetUsedStates().size() > a.GetUsedStates().size();
+			ev["op"] = "reduce";
+			r["R"] = ReadTA(x, alpha);
+		}
+		else if (which == "compl")
+		{
+			if (nq > 5) { continue; }          // the complement is exponential; TLC must still be able to judge a suspicious case
+			TA x = a.Complement();
+			// every sampled tree over the alphabet is accepted by exactly one of A and its complement: the tree is
+			// turned into a one-tree automaton and asked through the library's inclusion (the complement is re-read
+			// through the operand's alphabet, because the result object carries the default alphabet)
+			bool exactlyOne = true;
+			{
+				json jx = ReadTA(x, alpha);
+				TA xr = MakeTA(jx, alpha);
+				for (int t = 0; t < 6 && exactlyOne; ++t)
+				{
+					json rules = json::array();
+					size_t next = 100;
+					std::function<size_t(int)> build = [&](int depth) -> size_t {
+						std::vector<const std::pair<std::string, size_t>*> cands;
+						for (auto& sy : *al) { if (depth > 0 || sy.second == 0) { cands.push_back(&sy); } }
+						if (cands.empty()) { throw std::runtime_error("no leaf symbol"); }
+						const auto* sy = cands[rng() % cands.size()];
+						json kids = json::array();
+						for (size_t k = 0; k < sy->second; ++k) { kids.push_back(build(depth - 1)); }
+						size_t me = next++;
+						rules.push_back(json::array({sy->first, kids, me}));
+						return me;
+					};
+					json jt;
+					try { size_t root = build(1 + rng() % 3); jt["fin"] = json::array({root}); }
+					catch (const std::exception&) { break; }
+					jt["rules"] = rules;
+					TA tt = MakeTA(jt, alpha);
+					bool inA = leq(tt, a), inC = leq(tt, xr);
+					if (inA == inC) { exactlyOne = false; }
+				}
+			}
+			bool involution = exactlyOne;
+			TA both = TA::Intersection(a, x);
+			bad = !both.IsLangEmpty() || !involution;
+			ev["op"] = "compl";
+			r["R"] = ReadTA(x, alpha);
+			json alph = json::array();
+			for (auto& kv : alpha.otf->GetSymbolDict()) { alph.push_back(json::array({kv.first.symbolStr, kv.first.rank})); }
+			r["alphabet"] = alph;
+		}
+		else if (which == "witness")
+		{
+			TA w = a.GetCandidateTree();
+			bad = !leq(w, a) || (w.IsLangEmpty() != a.IsLangEmpty());
+			ev["op"] = "witness";
+			r["R"] = ReadTA(w, alpha);
+		}
+		else if (which == "sim")
+		{
+			// states are 0..nq-1 (base 0 enforced below); a pair in the returned relation must be a language inclusion of states
+			if (ja["rules"].empty()) { continue; }
+			size_t n = 0;
+			for (size_t q : a.GetUsedStates()) { if (q + 1 > n) { n = q + 1; } }
+			VATA::SimParam sp;
+			sp.SetRelation(VATA::SimParam::e_sim_relation::TA_DOWNWARD);
+			sp.SetNumStates(n);
+			AutBase::StateDiscontBinaryRelation rel = a.ComputeSimulation(sp);
+			json m = json::array();
+			auto used = a.GetUsedStates();
+			for (size_t q = 0; q < n; ++q)
+			{
+				json row = json::array();
+				for (size_t t = 0; t < n; ++t)
+				{
+					int v;
+					try { v = rel.get(q, t) ? 1 : 0; } catch (const std::exception&) { v = -1; }
+					row.push_back(v);
+					if (v == 1 && used.count(q) && used.count(t) && q != t)
+					{	// q <= t must imply L(q) within L(t)
+						TA x(a, true, false), y(a, true, false);
+						x.SetStateFinal(q); y.SetStateFinal(t);
+						if (!leq(x, y)) { bad = true; }
+					}
+					if (q == t && used.count(q) && v != 1) { bad = true; }
+				}
+				m.push_back(row);
+			}
+			ev["op"] = "sim"; ev["n"] = n; ev["dirs"] = json::array({"down"});
+			r["down"] = m;
+		}
+		else { throw std::runtime_error("vdrive: bad which"); }
+		++processed;
+		if (bad && suspicious.size() < 20)
+		{
+			r["A_after"] = ReadTA(a, alpha);
+			ev["res"] = r;
+			suspicious.push_back(ev);
+		}
+	}
+	json res;
+	res["count"] = processed;
+	res["nonempty"] = nonEmpty;
 	res["suspicious"] = suspicious;
 	return res;
 }
